@@ -490,6 +490,11 @@ def run_check(pid, tier, seed, keep=False):
                              "(the code writes through a path the shim does not observe): %s" %
                              [n for n in notes if n["k"] == "unobserved_fs_path"][:2])
 
+    # vacuity at the level of probes: a probe the Monitor declines to judge exercises nothing
+    skipped = sum(1 for n in notes if n["k"] in ("tail_probe_not_applicable", "tail_probe_boundary_unknown"))
+    if pid == "C10" and skipped > 1000 and skipped * 2 > cnt.get("probes", 0):
+        raise vlib.ToolError("vacuity: the Monitor skipped %d tail probes as not applicable" % skipped)
+
     # vacuity guard
     for k, n in P["need"].items():
         if cnt.get(k, 0) < n:
